@@ -43,6 +43,8 @@ type pipe struct {
 	off     int  // offset into chunks[0] (stream mode)
 	wclosed bool // writer closed: EOF after drain
 	waiter  chan int
+	stalled bool     // the reader has stopped reading and the buffers are full: writes block
+	wwaiter chan int // a writer blocked by the stall
 	Log     []Rec // everything ever written
 	// Filter, if set, decides the fate of each written chunk (link faults):
 	// it returns the list of chunks to deliver instead.
@@ -74,6 +76,7 @@ type Conn struct {
 	Closes   int
 	ClosedAt time.Duration
 	rdl      time.Time
+	wdl      time.Time
 	// Responder, if set, is called with every chunk the owner writes; what it
 	// returns becomes readable by the owner at once (a peer that answers
 	// immediately: the reply can overtake the writer's next step).
@@ -185,6 +188,48 @@ func (c *Conn) Write(b []byte) (int, error) {
 	if c.closed {
 		return 0, closedErr{}
 	}
+	// a stalled peer: block until the write deadline (timeout error, nothing written), the end of the stall or Close
+	for {
+		c.tx.mu.Lock()
+		stalled := c.tx.stalled
+		c.tx.mu.Unlock()
+		if !stalled {
+			break
+		}
+		s := sched()
+		if s == nil {
+			panic("vnet: blocking write outside a scheduler")
+		}
+		if !c.wdl.IsZero() && !c.wdl.After(s.Now()) {
+			return 0, ErrTimeout
+		}
+		w := make(chan int, 1)
+		c.tx.mu.Lock()
+		c.tx.wwaiter = w
+		c.tx.mu.Unlock()
+		var tm *vsched.Timer
+		if !c.wdl.IsZero() {
+			tm = s.AddTimerAt(c.wdl, nil, func() {
+				select {
+				case w <- wakeTimeout:
+				default:
+				}
+			}, true)
+		}
+		r := <-w
+		c.tx.mu.Lock()
+		c.tx.wwaiter = nil
+		c.tx.mu.Unlock()
+		if tm != nil {
+			tm.Stop()
+		}
+		if r == wakeTimeout {
+			return 0, ErrTimeout
+		}
+		if c.closed {
+			return 0, closedErr{}
+		}
+	}
 	cp := append([]byte(nil), b...)
 	var at time.Duration
 	if s := sched(); s != nil {
@@ -231,17 +276,37 @@ func (c *Conn) Close() error {
 	c.tx.mu.Lock()
 	c.tx.wclosed = true
 	c.tx.signal(wakeClosed)
+	if c.tx.wwaiter != nil {
+		select {
+		case c.tx.wwaiter <- wakeClosed:
+		default:
+		}
+	}
 	c.tx.mu.Unlock()
 	return nil
+}
+
+// SetWriteStall makes the owner's writes block (true) as if the peer had
+// stopped reading and every buffer were full, or lets them through again (false).
+func (c *Conn) SetWriteStall(on bool) {
+	c.tx.mu.Lock()
+	c.tx.stalled = on
+	if !on && c.tx.wwaiter != nil {
+		select {
+		case c.tx.wwaiter <- wakeData:
+		default:
+		}
+	}
+	c.tx.mu.Unlock()
 }
 
 func (c *Conn) IsClosed() bool { return c.closed }
 
 func (c *Conn) LocalAddr() net.Addr                { return addr(c.Name) }
 func (c *Conn) RemoteAddr() net.Addr               { return addr(c.peer.Name) }
-func (c *Conn) SetDeadline(t time.Time) error      { c.rdl = t; return nil }
+func (c *Conn) SetDeadline(t time.Time) error      { c.rdl, c.wdl = t, t; return nil }
 func (c *Conn) SetReadDeadline(t time.Time) error  { c.rdl = t; return nil }
-func (c *Conn) SetWriteDeadline(t time.Time) error { return nil }
+func (c *Conn) SetWriteDeadline(t time.Time) error { c.wdl = t; return nil }
 
 // ---- driver side (root goroutine) ----
 
